@@ -154,6 +154,24 @@ def r2(ctx):
     lp = cl[0]
     names, base = chain_of(lp["iter"])
     ctx.check("R10.2", "every-group", names in (["iter"], []), "group-walk:" + ".".join(names), c.loc(fn, lp), "for couple in self.coupled.iter()")
+    # on the E6 summary: every way through update() that returns normally runs the walk over self.coupled (no early return, no condition
+    # under which a training step leaves the copies untied)
+    from .. import e6
+    E = e6.Exec(c, fn)
+    live = [p for p in E.run_fn() if p.exit is None or p.exit[0] == "return"]
+
+    def couples(p):
+        for e in p.eff:
+            if e[0] == "loop":
+                it = e6.strip_upd(e[2])
+                if isinstance(it, tuple) and it and it[0] == "field" and it[2] == "coupled" and (it[1] == ("p", "self") or e6.root_name(it[1]) == "self"):
+                    return True
+        return False
+    skipping = [p for p in live if not couples(p)]
+    ctx.check("R10.2", "recoupled-on-every-step", bool(live) and not skipping, "update-path-without-recoupling:" + short("; ".join(("" if b_ else "!") + e6.show(t_, 2) for t_, b_ in (skipping[0].pc if skipping else ())), 80),
+              c.loc(fn, lp), "every returning path of update() re-couples the groups",
+              "Feedback::update can return without walking self.coupled (when %s): after such a step the unrolled copies of a layer hold different parameters"
+              % "; ".join(("" if b_ else "not ") + e6.show(t_, 2) for t_, b_ in (skipping[0].pc if skipping else ()))[:200])
     opt = [i for i, s in enumerate(st) if any(x.get("k") == "mcall" and x["callee"] == "optimizer::Optimizer::update" for x in walk(s))]
     ctx.check("R10.2", "after-optimizer-steps", bool(opt) and max(opt) < st.index(lp), "coupling-before-optimizer", c.loc(fn, lp), "re-coupling follows the per-copy optimizer calls")
     outs = e4.outcomes(c, lp["body"], lambda n: False)
